@@ -3,11 +3,16 @@
 All arithmetic here is the analyser's own (Python integers) on literals read from the MIR / rustc const evaluation."""
 from core.report import Rule
 from core.facts import FactsError
-from core.terms import strip, alts, walk, show
+from core.terms import strip, alts, walk, show, expand_call, same_file
 from core import paths
 from core.sm9 import U256, literal_u256, make_curve_fq, make_curve_fq2, ec_mul, Fq2 as PyFq2
 from . import shared
 from .shared import loc_of
+
+
+def small_helper(cb):
+    """a crate-local helper short enough to be a wrapper around a literal or a constructor"""
+    return len(cb.blocks) <= 12 and not cb.rec["path"].endswith("::new")
 
 
 class Lits:
@@ -90,6 +95,9 @@ class Lits:
             sv = self.repo.static_values().get(st)
             if sv and sv["int"] is None:
                 return self.fq(sv["term"], depth + 1)
+        e = expand_call(self.repo, t, small_helper)
+        if e is not None:
+            return self.fq(e, depth + 1)
         return None
 
     def fq2(self, t):
@@ -113,6 +121,9 @@ class Lits:
         if t[0] == "agg" and t[1] == "crate::fields::fq2::Fq2":
             a, b = self.fq(t[3][0]), self.fq(t[3][1])
             return None if a is None or b is None else (a, b)
+        e = expand_call(self.repo, t, small_helper)
+        if e is not None:
+            return self.fq2(e)
         return None
 
 
@@ -184,29 +195,39 @@ def rule_const(prop, repo):
                         bad.append((b.rec["path"], d.split("::")[-1], sts))
         R.check(not bad and n >= 8, "%s:const:%s:pairing-of-constants" % (prop, short), "%s arithmetic uses constants of another field: %s" % (short, bad[:3]),
                 sample={"type": short, "modular_call_sites": n, "constants": sorted(x for x in (info["modulus"], rsq, inv) if x)})
-    # pairing constants (rustc const evaluation)
-    def cint(name):
-        c = F.consts.get(name)
-        if c is None or "int" not in c:
-            raise FactsError("const %s missing or not an integer" % name)
-        return int(c["int"])
-    chk("SM9_S", cint("crate::pairings::SM9_S"), t, "t")
-    chk("SM9_LOOP_N", cint("crate::pairings::SM9_LOOP_N"), 6 * t + 2, "6t+2")
-    chk("SM9_A3", cint("crate::pairings::SM9_A3"), 6 * t + 5, "6t+5")
-    chk("SM9_A2", cint("crate::pairings::SM9_A2"), 6 * t * t + 1, "6t^2+1")
-    chk("SM9_NINE", cint("crate::pairings::SM9_NINE"), 9, "9")
-    lc = F.consts.get("crate::pairings::SM9_LOOP_COUNT")
-    if lc is None or "bytes_hex" not in lc:
-        R.fail_closed("%s:const:SM9_LOOP_COUNT" % prop, "SM9_LOOP_COUNT not readable")
-    else:
-        digits = list(bytes.fromhex(lc["bytes_hex"]))
-        v = 1
-        ok = all(d in (0, 1, 2) for d in digits)
-        for d in digits:
-            v = 2 * v + (1 if d == 1 else (-1 if d == 2 else 0))
-        R.instance()
-        R.check(ok and v == 6 * t + 2, "%s:const:SM9_LOOP_COUNT" % prop, "signed-digit expansion (implicit leading 1, 2 = −1) evaluates to %s, not 6t+2" % hex(v),
-                sample={"constant": "SM9_LOOP_COUNT", "digits": len(digits), "evaluates_to": hex(v)})
+    # pairing constants (rustc const evaluation), identified by value: every large integer literal of the pairing module must
+    # be one of the curve-parameter expressions the algorithms use. Where each one is used is decided by R-EXP / R-MILLER-INDEX.
+    from .roles import PairingRoles
+    roles = PairingRoles(F)
+    rel = {t: "t", 6 * t + 2: "6t+2", 6 * t + 5: "6t+5", 6 * t * t + 1: "6t^2+1", 9: "9"}
+    nint = 0
+    for nm, c in sorted(roles.consts().items()):
+        short = nm.split("::")[-1]
+        if "int" in c and c.get("ty") in ("u128", "u64", "usize", "u32", None):
+            v = int(c["int"])
+            if v < 2 ** 16 and v not in rel:
+                continue            # small helper constants (widths, counts) carry no curve parameter
+            nint += 1
+            R.instance()
+            R.check(v in rel, "%s:const:%s" % (prop, short), "%s = %s is none of the parameter expressions %s" % (short, hex(v), sorted(set(rel.values()))),
+                    sample={"constant": short, "relation": rel.get(v), "value": hex(v)})
+        elif "bytes_hex" in c:
+            digits = list(bytes.fromhex(c["bytes_hex"]))
+            if len(digits) < 32 or not all(d in (0, 1, 2) for d in digits):
+                continue
+            def ev(ds, lead):
+                v = lead
+                for d in ds:
+                    v = 2 * v + (1 if d == 1 else (-1 if d == 2 else 0))
+                return v
+            cands = {"implicit leading 1, most significant first": ev(digits, 1), "most significant first": ev(digits, 0),
+                     "implicit leading 1, least significant first": ev(digits[::-1], 0) + 2 ** len(digits), "least significant first": ev(digits[::-1], 0)}
+            okc = [k for k, v in cands.items() if v == 6 * t + 2]
+            R.instance()
+            R.check(bool(okc), "%s:const:%s" % (prop, short), "signed-digit table (2 = −1) evaluates to %s, not 6t+2, under every digit order" % hex(cands["implicit leading 1, most significant first"]),
+                    sample={"constant": short, "digits": len(digits), "evaluates_to_6t+2_as": okc[:1]})
+    if nint < 3:
+        R.fail_closed("%s:const:pairing-consts" % prop, "fewer than three curve-parameter constants found in the pairing module (%d)" % nint)
     # Frobenius constants by defining relation alpha_i = (-2)^(i(q-1)/12)
     alpha = {i: pow(-2 % q, i * (q - 1) // 12, q) for i in range(0, 13)}
     if (q - 1) % 12 != 0:
@@ -223,14 +244,20 @@ def rule_const(prop, repo):
         if sv["int"] is not None and sv["int"] >= 2 ** 64 and sv["int"] not in known_vals:
             R.instance()
             R.violation("%s:const:%s:unexplained" % (prop, nm), "static %s = %s has no defining relation in the parameter table" % (nm, hex(sv["int"])))
-    # sqrt exponents are computed, not literal: check the computation's shape (-1/4 and -5/8 in Fq)
+    # sqrt exponents are computed, not literal: every field static built by a computation must evaluate to (q-1)/4 or (q-5)/8
     L = Lits(repo)
-    for nm, want, what in (("crate::fields::FQ_MINUS1_DIV4", (q - 1) * pow(4, -1, q) % q, "(q-1)/4 = -1·4^-1"), ("crate::fields::FQ_MINUS5_DIV8", (q - 5) * pow(8, -1, q) % q, "(q-5)/8 = -5·8^-1")):
-        if nm in svals:
-            got = L.fq(svals[nm]["term"])
-            chk(nm.split("::")[-1], got, want, what)
-            R.instance()
-            R.check(want in ((q - 1) // 4, (q - 5) // 8), "%s:const:%s:integer" % (prop, nm), "field quotient is not the integer quotient", sample={"constant": nm, "integer_quotient": True})
+    wants = {(q - 1) * pow(4, -1, q) % q: "(q-1)/4 = -1·4^-1", (q - 5) * pow(8, -1, q) % q: "(q-5)/8 = -5·8^-1"}
+    ncomp = 0
+    for nm, sv in sorted(svals.items()):
+        if sv["int"] is not None or not nm.startswith("crate::fields"):
+            continue
+        got = L.fq(sv["term"])
+        if got is None:
+            continue
+        ncomp += 1
+        chk(nm.split("::")[-1], got if got in wants else got, got if got in wants else sorted(wants)[0], " or ".join(wants.values()))
+        R.instance()
+        R.check(got not in wants or got in ((q - 1) // 4, (q - 5) // 8), "%s:const:%s:integer" % (prop, nm), "field quotient is not the integer quotient", sample={"constant": nm, "integer_quotient": True})
     return R.finish()
 
 
@@ -359,6 +386,9 @@ class FrobEval:
             if n == "neg" and len(a) == 1:
                 v = self.fq2_of(body, a[0], inp)
                 return Lin(v.src, v.conj, (-v.k) % q)
+        e = expand_call(self.repo, t, same_file(self.repo, body))
+        if e is not None:
+            return self.fq2_of(body, e, inp)
         raise FactsError("Frobenius evaluator: unrecognised Fq2 term %s" % show(t, maxdepth=3)[:120])
 
     def fq4_of(self, body, t, inp4):
@@ -397,6 +427,9 @@ class FrobEval:
                 def comp(s, v):
                     return Lin(v.src, v.conj ^ s.conj, (s.k * v.k) % q)
                 return (comp(sub[0], c0), comp(sub[1], c1))
+        e = expand_call(self.repo, t, same_file(self.repo, body))
+        if e is not None:
+            return self.fq4_of(body, e, inp4)
         raise FactsError("Frobenius evaluator: unrecognised Fq4 term %s" % show(t, maxdepth=3)[:120])
 
     def fq4_arm(self, power):
@@ -435,6 +468,84 @@ class FrobEval:
         return out
 
 
+def classify_twist(repo, b, L=None):
+    """[(source coordinate, conjugated?, Fq factor)] for the three coordinates a (&G2) -> G2 helper returns, or None."""
+    L = L or Lits(repo)
+    q = repo.P.q
+    rv = repo.tb(b).return_value()
+    for _ in range(3):
+        if rv[0] == "call" and not (len(rv[2]) == 3 and rv[1].d.startswith("crate::groups::")):
+            e = expand_call(repo, rv, same_file(repo, b))
+            if e is None:
+                break
+            rv = e
+    desc = show(rv, maxdepth=4)[:200]
+    ops = None
+    if rv[0] == "call" and len(rv[2]) == 3 and rv[1].d.startswith("crate::groups::"):
+        ops = rv[2]
+    elif rv[0] == "agg" and rv[1] == "crate::groups::G" and len(rv[3]) == 3:
+        ops = rv[3]
+    if ops is None:
+        return None, desc
+
+    def coord(t, depth=0):
+        t = strip(t)
+        c = False
+        k = 1
+        while t[0] == "call":
+            if t[1].name == "unitary_inverse" and len(t[2]) == 1:
+                c = not c
+                t = strip(t[2][0])
+            elif t[1].name == "scale" and len(t[2]) == 2:
+                kk = L.fq(t[2][1])
+                if kk is None:
+                    return None
+                k = k * kk % q
+                t = strip(t[2][0])
+            elif t[1].name == "mul" and len(t[2]) == 2 and L.fq2(t[2][1]) is not None and L.fq2(t[2][1])[1] == 0:
+                k = k * L.fq2(t[2][1])[0] % q
+                t = strip(t[2][0])
+            else:
+                break
+        idx = None
+        if t[0] == "call" and t[1].d.startswith("crate::groups::G::<P>::") and len(t[2]) == 1 and strip(t[2][0]) == ("init", ("deref", 1)):
+            gb = repo.F.bodies.get(t[1].d)
+            if gb is not None:
+                grv = strip(repo.tb(gb).return_value())
+                if grv[0] == "field" and strip(grv[1]) == ("init", ("deref", 1)):
+                    idx = grv[2]
+        elif t[0] == "field" and strip(t[1]) == ("init", ("deref", 1)):
+            idx = t[2]
+        elif t[0] == "call" and depth < 3:
+            e = expand_call(repo, t, same_file(repo, b))
+            if e is not None:
+                sub = coord(e, depth + 1)
+                if sub is not None:
+                    return (sub[0], sub[1] ^ c, sub[2] * k % q)
+        return (idx, c, k)
+    cs = [coord(x) for x in ops]
+    return cs, str(cs)
+
+
+def twist_powers(repo, roles):
+    """{path: e} for the (&G2) -> G2 helpers of the pairing module that are the twist Frobenius π^e (e = 1, 2) coordinate-wise."""
+    q = repo.P.q
+    a1 = pow(-2 % q, (q - 1) // 12, q)
+    a2 = pow(-2 % q, 2 * (q - 1) // 12, q)
+    out = {}
+    L = Lits(repo)
+    for b in roles.twist_frob:
+        try:
+            cs, _ = classify_twist(repo, b, L)
+        except FactsError:
+            cs = None
+        if cs == [(0, True, 1), (1, True, 1), (2, True, a1)]:
+            out[b.rec["path"]] = 1
+        elif cs == [(0, False, 1), (1, False, 1), (2, False, a2)]:
+            out[b.rec["path"]] = 2
+    return out
+
+
 def rule_frobenius(prop, repo):
     """x ↦ x^(q^e) on Fq12 = Fq2[w]/(w^6 − u) written as Σ (A_k + B_k w^3) w^k: coefficient of w^m is conjugated e times and
     multiplied by (−2)^(m(q^e−1)/12)."""
@@ -466,56 +577,48 @@ def rule_frobenius(prop, repo):
     # twist Frobenius used by the Miller loops: (x̄, ȳ, z̄·α1), (x, y, z·α2), and q_power_frobenius called with α1
     a1 = pow(-2 % q, (q - 1) // 12, q)
     a2 = pow(-2 % q, 2 * (q - 1) // 12, q)
+    from .roles import PairingRoles
+    roles = PairingRoles(F)
     L = Lits(repo)
-    for name, conj, want in (("point_pi1", True, a1), ("point_pi2", False, a2)):
-        b = [x for x in F.fn_bodies() if x.name == name]
+    got_powers = {}
+    for b in roles.twist_frob:
         R.instance()
-        if len(b) != 1:
-            R.fail_closed("%s:frobenius:%s" % (prop, name), "%s not found" % name)
-            continue
-        b = b[0]
-        rv = repo.tb(b).return_value()
-        ok = False
-        desc = show(rv, maxdepth=4)[:200]
-        if rv[0] == "call" and rv[1].name == "new" and len(rv[2]) == 3:
-            def coord(t):
-                t = strip(t)
-                c = False
-                k = 1
-                while t[0] == "call" and t[1].name in ("unitary_inverse", "scale"):
-                    if t[1].name == "unitary_inverse":
-                        c = not c
-                        t = strip(t[2][0])
-                    else:
-                        kk = L.fq(t[2][1])
-                        if kk is None:
-                            return None
-                        k = k * kk % q
-                        t = strip(t[2][0])
-                idx = None
-                if t[0] == "call" and t[1].d.startswith("crate::groups::G::<P>::") and t[1].name in ("x", "y", "z"):
-                    idx = "xyz".index(t[1].name)
-                elif t[0] == "field" and strip(t[1]) == ("init", ("deref", 1)):
-                    idx = t[2]
-                return (idx, c, k)
-            cs = [coord(x) for x in rv[2]]
-            ok = cs == [(0, conj, 1), (1, conj, 1), (2, conj, want)]
-            desc = str(cs)
-        R.check(ok, "%s:frobenius:%s" % (prop, name), "%s is not (x%s, y%s, z%s·α) with the right α: %s" % (name, "̄" if conj else "", "̄" if conj else "", "̄" if conj else "", desc),
-                b.file_line(), b.rec["path"], sample={"fn": name, "coords": desc})
-    # prepared path: q_power_frobenius is applied with f = α1 (twice)
-    pb = F.bodies.get("<crate::pairings::G2Prepared as core::convert::From<crate::groups::G<crate::groups::G2Params>>>::from")
+        cs, desc = classify_twist(repo, b, L)
+        e = None
+        if cs == [(0, True, 1), (1, True, 1), (2, True, a1)]:
+            e = 1
+        elif cs == [(0, False, 1), (1, False, 1), (2, False, a2)]:
+            e = 2
+        got_powers[e] = got_powers.get(e, 0) + 1
+        R.check(e is not None, "%s:frobenius:twist:%s" % (prop, b.name), "%s is neither π = (x̄, ȳ, z̄·α1) nor π² = (x, y, z·α2): %s" % (b.rec["path"], desc),
+                b.file_line(), b.rec["path"], sample={"fn": b.rec["path"], "frobenius_power": e, "coords": desc[:120]})
+    if len(roles.twist_frob) < 2:
+        R.fail_closed("%s:frobenius:twist:anchor" % prop, "expected the two twist Frobenius helpers (&G2) -> G2 in the pairing module, found %s" % [b.rec["path"] for b in roles.twist_frob])
+    # prepared path: the (point, factor) Frobenius helper is applied with f = α1 (twice)
+    pb = roles.producer
     R.instance()
-    if pb is None:
-        R.fail_closed("%s:frobenius:prepared" % prop, "G2Prepared::from not found")
+    if pb is None or len(roles.twist_frob_by) != 1:
+        R.fail_closed("%s:frobenius:prepared" % prop, "prepared-point producer or its Frobenius helper not found")
     else:
         tb = repo.tb(pb)
         vals = []
-        for bb, t in pb.calls():
-            if (t.get("fn") or {}).get("name") == "q_power_frobenius":
-                vals.append(L.fq2(strip(tb.call_args(bb)[1])))
-        R.check(len(vals) == 2 and all(v == (a1, 0) for v in vals), "%s:frobenius:prepared" % prop, "q_power_frobenius is not applied twice with α1: %s" % vals, pb.file_line(), pb.rec["path"],
-                sample={"q_power_frobenius_args": [hex(v[0]) if v else None for v in vals]})
+        hp = roles.twist_frob_by[0].rec["path"]
+        todo = [pb]
+        seen = set()
+        while todo:
+            cb = todo.pop()
+            if cb.rec["path"] in seen:
+                continue
+            seen.add(cb.rec["path"])
+            tbc = repo.tb(cb)
+            for bb, t in cb.calls():
+                d = (t.get("fn") or {}).get("res_def")
+                if d == hp:
+                    vals.append(L.fq2(strip(tbc.call_args(bb)[1])))
+                elif d in F.bodies and roles.in_module(F.bodies[d]) and roles.role_of(d) is None and F.bodies[d].rec.get("inputs") is not None and F.bodies[d] is not roles.consumer:
+                    todo.append(F.bodies[d])
+        R.check(len(vals) == 2 and all(v == (a1, 0) for v in vals), "%s:frobenius:prepared" % prop, "the Frobenius-with-factor helper is not applied twice with α1: %s" % vals, pb.file_line(), pb.rec["path"],
+                sample={"frobenius_factor_args": [hex(v[0]) if v else None for v in vals]})
     return R.finish()
 
 
